@@ -287,6 +287,7 @@ def run(chk, tier):
     _PR.check(chk, db, ['_string_view/', '_string/char_traits'], floor=40)
     from ..rules import iters as _ITX
     _ITX.reverse_index_area(chk, db, ['_string_view/', '_string/char_traits'])      # IT4i: downward index scans reach index 0
+    _ITX.resume_area(chk, db, ['_string_view/', '_algorithm/find_end', '_algorithm/search'])      # RESUME: pattern searches try every candidate position
     from ..rules import sibs as _SB
     _SB.check(chk, db, ['_string_view/', '_string/char_traits'])      # SIB: cv/ref-qualified overloads of one member agree
     _SB.positive_control(chk)
